@@ -7,3 +7,4 @@ import MW.Props.C04
 #print axioms MW.Props.C04.submit_no_dilution
 #print axioms MW.Props.C04.unbond_le_total
 #print axioms MW.Props.C04.roundtrip_no_profit
+#print axioms MW.Props.C04.messages_are_the_modelled_ones
